@@ -10,6 +10,11 @@ S2  (a) byte in the covered set of the served slot altered (outside the super-he
     (b) the unaltered image, every header alteration and a sample of page alterations are abstracted into
         the vocabulary of Merkle.v and run through the extracted `recover`; its verdict (clean / repaired /
         failed, which slot) is compared with what the crate served.
+    (c) the same blocks plus every length alteration (truncation / extension) go through the extracted
+        WHOLE verdict `Verdict.full` (header validation, finalize from the file length, quick path / repair at
+        open, layout_matched + recount + allocator comparison in check_integrity; allocator states abstracted
+        to one value, so the model is an upper bound): the crate's verdict class must not be cleaner than the
+        model's in the order error < Ok(false) < Ok(true), and on the unaltered image the model says Ok(true).
 """
 import json
 import os
@@ -68,15 +73,43 @@ def model_compare(ctx):
     real = [l.split("\t") for l in open(os.path.join(ctx.workdir, "real.txt")).read().split("\n") if l]
     model = [l.split("\t") for l in open(os.path.join(ctx.workdir, "model_out.txt")).read().split("\n") if l]
     mism, stats = [], {}
+    full_stats, strict = {}, {}
+    rank = {"err": 0, "erropen": 0, "errcheck": 0, "false": 1, "true": 2}
+    model_compare.full_stats, model_compare.strict = full_stats, strict
     if len(real) != len(model):
         return 0, ["model produced %d verdicts for %d blocks" % (len(model), len(real))], stats
     base_txid = None
     for r, m in zip(real, model):
         rid, code, served, ambiguous, ptrs, spec, cls = (r + [""] * 7)[:7]
-        mid, mv, mslot, mptrs, mtxid = (m + [""] * 5)[:5]
+        mid, mv, mslot, mptrs, mtxid, fv, ftx = (m + [""] * 7)[:7]
         if rid != mid:
             mism.append("block order differs: %s vs %s" % (rid, mid))
             break
+        # ---- (c) whole verdict (Verdict.full) against the crate's verdict class
+        if code.startswith("panic") or code in ("abort", "hang", "lost"):
+            rc = "panic"
+        elif code in ("open-error", "check-error"):
+            rc = "err"
+        else:
+            mo = re.match(r"Ok\((true|false)\)", code)
+            rc = mo.group(1) if mo else "?"
+        fk = "model=%s real=%s" % (fv, re.sub(r"\+second=.*", "", code))
+        full_stats[fk] = full_stats.get(fk, 0) + 1
+        if fv in ("badfline", "", "-"):
+            mism.append("%s: the driver produced no whole verdict (%r)" % (rid, fv))
+        elif rid.endswith("|0"):
+            if fv != "true":
+                mism.append("unaltered image %s: whole-verdict model says %s, expected true" % (rid, fv))
+        elif fv == "indeterminate":
+            if rc in ("true", "false"):
+                mism.append("%s alteration %s (%s): the crate serves a file (%s) whose slots/pages the independent reader cannot decode" % (rid, spec, cls, code))
+        elif fv in rank and rc in rank:
+            if rank[rc] > rank[fv]:
+                mism.append("%s alteration %s (%s): crate verdict %s is cleaner than the whole-verdict model allows (%s)" % (rid, spec, cls, code, fv))
+            elif rank[rc] < rank[fv]:
+                strict[cls] = strict.get(cls, 0) + 1
+            if fv in ("true", "false") and ftx != mtxid:
+                mism.append("%s: whole verdict serves txid %s, recover serves %s (contradicts c12_verdict_monotone: extraction glue?)" % (rid, ftx, mtxid))
         k = "model=%s real=%s" % (mv, re.sub(r"\+second=.*", "", code))
         stats[k] = stats.get(k, 0) + 1
         if rid.endswith("|0"):
@@ -229,7 +262,7 @@ def run(ctx):
                           {"fatal": rep["fatal"]})
         report_findings(ctx, rep)
         mism_rule = rep["s2_mismatch_count"]
-        rc2, derr = ctx.driver("c12", "model_in.txt", "model_out.txt")
+        rc2, derr = ctx.driver("c12", "model_in.txt", "model_out.txt", args=["%x" % 512])
         if rc2 != 0:
             s2_ok, s2_detail = False, "model driver failed rc=%s: %s" % (rc2, derr)
             n_model, mism_model, mstats = 0, [], {}
@@ -254,6 +287,8 @@ def run(ctx):
             "samples": rep["samples"][:4],
             "traces_validated_against_impl": n_model,
             "model_vs_crate": mstats,
+            "whole_verdict_model_vs_crate": getattr(model_compare, "full_stats", {}),
+            "whole_verdict_crate_strictly_below_model_by_class": getattr(model_compare, "strict", {}),
             "images": rep["images"],
             "history_ops": rep["history_ops"],
             "by_alteration_kind": rep["by_alteration_kind"],
@@ -287,6 +322,7 @@ def run(ctx):
     ]
     assumptions = [
         "H_inj: the checksum function is injective (explicit premise of every detection theorem; real XXH3-128 only by the sweep)",
+        "whole verdict (Verdict.v): allocator states are abstract values with an equality test, `rebuild`/`counted`/`f_loaded` abstract inputs; per run they are instantiated by 'equal / succeeds' (model = upper bound of the crate's verdict) and by the reader's table recount",
         "a reader's view is a function of the covered prefixes [0,end) of the pages it reaches (bytes beyond `end` unread): validated by the sweep (class */beyond-used), not proved",
         "commit points represented in a file = the two slots; that the original file's slots hold exactly what their commits wrote is C10/C01",
     ]
